@@ -278,6 +278,12 @@ fn operand_json<'tcx>(
             let cty = c.const_.ty();
             o.put("ty", J::s(cty.to_string()));
             o.put("s", J::s(format!("{}", c.const_)));
+            if let mir::Const::Unevaluated(uv, _) = c.const_ {
+                if let Some(pi) = uv.promoted {
+                    o.put("promoted", J::Int(pi.as_usize() as i128));
+                    o.put("promoted_of", J::s(key(tcx, uv.def)));
+                }
+            }
             match cty.kind() {
                 ty::FnDef(did, args) => {
                     o.put("fn", J::s(key(tcx, *did)));
@@ -650,6 +656,25 @@ fn body_json<'tcx>(tcx: TyCtxt<'tcx>, ldid: LocalDefId) -> Option<J> {
         blocks.push(block_json(tcx, body, env, did, data));
     }
     o.put("blocks", J::Arr(blocks));
+    // promoted constants of this body (small bodies computing `&CONST`)
+    let mut proms = Vec::new();
+    for (_pi, pbody) in tcx.promoted_mir(did).iter_enumerated() {
+        let mut po = J::obj();
+        let mut pl = Vec::new();
+        for (_l, d) in pbody.local_decls.iter_enumerated() {
+            let mut lo = J::obj();
+            lo.put("ty", J::s(d.ty.to_string()));
+            pl.push(lo);
+        }
+        po.put("locals", J::Arr(pl));
+        let mut pb = Vec::new();
+        for (_bb, data) in pbody.basic_blocks.iter_enumerated() {
+            pb.push(block_json(tcx, pbody, env, did, data));
+        }
+        po.put("blocks", J::Arr(pb));
+        proms.push(po);
+    }
+    o.put("promoted", J::Arr(proms));
     Some(o)
 }
 
